@@ -56,6 +56,7 @@ structure Sess where
   vals : Array (Option Int) := #[]
   nbrs : Nat → List Nat := fun _ => []
   forest : List Tree := []
+  mlevels : List (Nat × Int) := []
   deriving Inhabited
 
 def Sess.val (s : Sess) (p : Nat) : Int := (s.vals.getD p none).getD 0
@@ -117,13 +118,19 @@ def doCompute (m : List (String × String)) : Option (Sess × List String) := do
   let inrange := order.all (· < n)
   let E := envOf val nbrs crits
   let f := compute E order
-  let s1 := { s0 with forest := f }
+  let s1 := { s0 with forest := f, mlevels := origLevelsL val f }
   let b2i (b : Bool) : Nat := if b then 1 else 0
   some (s1, s!"hyp sorted={b2i sorted} cover={b2i cover} nodup={b2i nodup} inrange={b2i inrange}" :: obsBlock s1)
 
 def doPrune (s : Sess) (m : List (String × String)) : Option (Sess × List String) := do
   let crits ← parseCrits (← look m "crit")
   let f := prune (allChild s.val crits) (allOrphan s.val crits) s.forest
+  let s1 := { s with forest := f }
+  some (s1, obsBlock s1)
+
+def doPruneOrig (s : Sess) (m : List (String × String)) : Option (Sess × List String) := do
+  let crits ← parseCrits (← look m "crit")
+  let f := prune (allChildOrig s.val s.mlevels crits) (allOrphan s.val crits) s.forest
   let s1 := { s with forest := f }
   some (s1, obsBlock s1)
 
@@ -158,6 +165,10 @@ def handle (s : Sess) (line : String) : Sess × List String :=
     match doPrune s (kvs rest) with
     | some (s', out) => (s', out)
     | none => (s, ["bad-op prune", "end"])
+  | "pruneorig" :: rest =>
+    match doPruneOrig s (kvs rest) with
+    | some (s', out) => (s', out)
+    | none => (s, ["bad-op pruneorig", "end"])
   | ["reload"] =>
     match doReload s with
     | some (s', out) => (s', out)
